@@ -57,3 +57,67 @@ Theorem C10_old_burst_is_outvoted : forall p H X h0,
   Some (Ok (SOM (mkHeader H (h_offset_time h0) (Proofs.CombinerP.parity_spec H X) (Proofs.CombinerP.voting_spec H X)))).
 Proof. exact Proofs.CombinerP.combine_two_good. Qed.
 Print Assumptions C10_old_burst_is_outvoted.
+
+(** * The whole discrete receiver: hostile audio has no lasting effect *)
+From Sameold Require Import Proofs.ShiftP Proofs.QuiesceP Proofs.SilenceP.
+Local Open Scope N_scope.
+
+(** time-shift invariance, for EVERY state and EVERY item stream: adding [ds] to the sample counter and
+    the forced end-of-message deadline, and [dy] to the symbol counter and to every deadline the
+    assembler holds, changes nothing but the event timestamps (offset [ds]) *)
+Theorem C10_receiver_is_time_shift_invariant : forall c ds dy k src,
+  fst (run_core c (shift_core ds dy k) src) = map (shift_ev ds) (fst (run_core c k src)).
+Proof. exact receiver_time_shift. Qed.
+Print Assumptions C10_receiver_is_time_shift_invariant.
+
+(** a quiesced state (link idle, nothing unexpired in the assembler, no timer armed), however it was
+    reached, is observationally a new receiver: after the 32 symbols a new receiver needs to fill its
+    correlator, ANY input gives the events of a new receiver, timestamps offset by the samples consumed *)
+Theorem C10_quiesced_receiver_is_as_new : forall c k sil src,
+  quiesced k -> length sil = 32%nat -> Forall silent sil ->
+  fst (run_core c k (map Tick sil ++ src))
+  = map (shift_ev (r_samples k)) (fst (run_core c core_init (map Tick sil ++ src))).
+Proof. exact quiesced_receiver_is_as_new. Qed.
+Print Assumptions C10_quiesced_receiver_is_as_new.
+
+(** every state reachable from a new receiver by ANY input satisfies [RI] ... *)
+Theorem C10_reachable_states_are_bounded : forall c src, RI (snd (run_core c core_init src)).
+Proof. intros c src. apply reachable_RI, RI_init. Qed.
+Print Assumptions C10_reachable_states_are_bounded.
+
+(** ... and from every such state silence leads to a quiesced one: 32 symbols idle the link layer,
+    MAX_INTERBURST + 1 + MAX_HISTORY (= 6335) more release and then expire everything the assembler
+    holds; the only thing silence does not undo by itself is an armed 135 s timer (C09 resolves it) *)
+Theorem C10_silence_quiesces : forall c k ts1 ts2 t,
+  RI k -> Forall silent ts1 -> Forall silent ts2 -> silent t ->
+  (32 <= length ts1)%nat -> MAX_INTERBURST_SYMBOLS + 1 + MAX_HISTORY_DURATION <= N.of_nat (length ts2) ->
+  r_force_eom (snd (run_core c k (map Tick (ts1 ++ ts2)))) = None ->
+  quiesced (snd (run_core c k (map Tick (ts1 ++ ts2 ++ [t])))).
+Proof. exact silence_quiesces. Qed.
+Print Assumptions C10_silence_quiesces.
+
+(** end to end: whatever [hostile] input a new receiver has seen, after that much silence (no timer
+    left armed) 32 further silent symbols and then ANY input produce exactly the events of a new
+    receiver on the same input, timestamps offset by the samples consumed before *)
+Theorem C10_hostile_audio_has_no_lasting_effect : forall c hostile ts1 ts2 t sil src,
+  Forall silent ts1 -> Forall silent ts2 -> silent t ->
+  (32 <= length ts1)%nat -> MAX_INTERBURST_SYMBOLS + 1 + MAX_HISTORY_DURATION <= N.of_nat (length ts2) ->
+  r_force_eom (snd (run_core c core_init (hostile ++ map Tick (ts1 ++ ts2)))) = None ->
+  length sil = 32%nat -> Forall silent sil ->
+  let k := snd (run_core c core_init (hostile ++ map Tick (ts1 ++ ts2 ++ [t]))) in
+  fst (run_core c k (map Tick sil ++ src))
+  = map (shift_ev (r_samples k)) (fst (run_core c core_init (map Tick sil ++ src))).
+Proof. exact hostile_audio_has_no_lasting_effect. Qed.
+Print Assumptions C10_hostile_audio_has_no_lasting_effect.
+
+(** the premises are met by a history that leaves the squelch synchronised and the framer searching *)
+Theorem C10_no_lasting_effect_is_not_vacuous :
+  (sq_clock (r_sq (snd (run_core example_cfg core_init hostile_example))) <> None
+   /\ r_fr (snd (run_core example_cfg core_init hostile_example)) <> FIdle)
+  /\ (let ts1 := repeat quiet_tick 32 in
+      let ts2 := repeat quiet_tick (N.to_nat (MAX_INTERBURST_SYMBOLS + 1 + MAX_HISTORY_DURATION)) in
+      Forall silent ts1 /\ Forall silent ts2 /\ silent quiet_tick
+      /\ (32 <= length ts1)%nat /\ MAX_INTERBURST_SYMBOLS + 1 + MAX_HISTORY_DURATION <= N.of_nat (length ts2)
+      /\ r_force_eom (snd (run_core example_cfg core_init (hostile_example ++ map Tick (ts1 ++ ts2)))) = None).
+Proof. exact (conj hostile_example_is_not_calm no_lasting_effect_premises_hold). Qed.
+Print Assumptions C10_no_lasting_effect_is_not_vacuous.
